@@ -23,20 +23,17 @@ pub fn to_listing(
 
             let mut data = vec![];
             for offset in &offsets {
-                for segment in ctx.segments().values() {
-                    if segment.range().start <= offset.pc.start
-                        && segment.range().end >= offset.pc.end
-                    {
-                        let mut start = offset.pc.start - segment.range().start;
-                        let end = start + (offset.pc.end - offset.pc.start);
-
-                        let mut pc = offset.pc.start;
-                        while start < end {
-                            data.push((pc, segment.range_data()[start]));
-                            start += 1;
-                            pc += 1;
+                if let Some(segment) = ctx.segments().get(&offset.segment) {
+                    // The source map contains target addresses, which differ from the addresses inside the segment
+                    // when the segment is relocated with 'pc'
+                    let target_start = segment.range().start as i64 + segment.target_offset();
+                    let mut pc = offset.pc.start;
+                    while pc < offset.pc.end {
+                        let index = pc as i64 - target_start;
+                        if index >= 0 && (index as usize) < segment.range_data().len() {
+                            data.push((pc, segment.range_data()[index as usize]));
                         }
-                        break;
+                        pc += 1;
                     }
                 }
             }
